@@ -223,7 +223,8 @@ class ArtimTask(Task):
 
 
 def tasks(tier):
-    return [ProcessPrimitiveTask(), ProducersScan(), ClosureTask(), ArtimTask()]
+    from contracts.C27 import SendTask
+    return [ProcessPrimitiveTask(), ProducersScan(), ClosureTask(), ArtimTask(), SendTask()]
 
 
 def replay(rec):
